@@ -12,8 +12,9 @@ Published rules implemented by `rule_check` (written from the rule text, not fro
 import itertools
 
 NAME = "building"
-STATUS = "model+differential"
-THEOREMS = []
+STATUS = "theorem"
+THEOREMS = ["Cspuz.C11.Building.program_iff_rules", "Cspuz.C11.Building.total"]
+LEAN_FILE = "C11_Building"
 LEAN_CMD = "puz_building"
 
 
